@@ -56,7 +56,9 @@ def value_classes():
         "command": [("posix", "ls -la 'a b'"), ("posix_noargs", "/bin/true"), ("windows", "c:\\x.exe /a b"), ("winenv", "%windir%\\x.exe"), ("none", None)],
         "digest": [("md5", (MD5, None, None)), ("all", (MD5, SHA1, SHA256)), ("sha", (None, SHA1, SHA256)), ("none", None)],
         "net.ipaddress": [("v4", "1.2.3.4"), ("v4_zero", "0.0.0.0"), ("v4_max", "255.255.255.255"), ("v6", "2001:db8::1"),
-                          ("v6_below_2_32", "::1"), ("v6_zero", "::"), ("v6_mapped", "::ffff:1.2.3.4"), ("none", None)],
+                          ("v6_below_2_32", "::1"), ("v6_zero", "::"), ("v6_mapped", "::ffff:1.2.3.4"),
+                          ("v6_at_2_32_minus_1", "::ffff:ffff"), ("v6_at_2_32", "::1:0:0"), ("v6_at_2_64_minus_1", "::ffff:ffff:ffff:ffff"), ("v6_at_2_64", "::1:0:0:0:0"),
+                          ("v6_max", "ffff:ffff:ffff:ffff:ffff:ffff:ffff:ffff"), ("none", None)],
         "net.ipnetwork": [("v4", "10.0.0.0/8"), ("v4_host", "1.2.3.4/32"), ("v6", "2001:db8::/32"), ("v6_all", "::/0"), ("v4_all", "0.0.0.0/0"), ("none", None)],
         "net.IPAddress": [("v4", "9.8.7.6"), ("v6", "fe80::1"), ("none", None)],
         "net.IPNetwork": [("v4", "192.168.0.0/16"), ("none", None)],
